@@ -255,6 +255,11 @@ theorem rinv_step (s s' : St) (e : Ev) (hI : RInv s) (h : step s e = some s') : 
         · simp at h; subst h; exact hI
         · simp at h
       · simp at h
+  | nilnext k =>
+    simp only [step] at h
+    split at h
+    · simp at h; subst h; exact rinv_of_same hI rfl rfl rfl id
+    · simp at h
 
 theorem rinv_init : RInv ({} : St) :=
   ⟨fun x hx => by simp at hx, fun h => absurd rfl h, fun k r e h => by simp [St.key, look] at h⟩
